@@ -1,17 +1,52 @@
 import Flatland.JsonUtil
 import Flatland.Markup.Json
 import Flatland.C19
+import Flatland.C19Filters
 open Lean Flatland.J
 namespace Flatland.Run.C19
 open Flatland.Markup Flatland.Markup.Json Flatland.C19
 
+/-- option-frame values, with `{"t":"o","v":name}` = a named filter list (or the default `()`) -/
+def parseCValF (j : Json) : Except String CVal := do
+  match (← sfld j "t") with
+  | "o" => return .opaque (← cfld j "v")
+  | _ => parseCVal j
+
+def parseAct (j : Json) : Except String ContentsAct := do
+  match (← sfld j "kind") with
+  | "keep" => return .keep
+  | "append" => return .append (← cfld j "m")
+  | "replace" => return .replace (← parseVal (← fld j "v"))
+  | "drop" => return .drop
+  | "appendtag" => return .appendTag
+  | k => throw s!"bad contents act {k}"
+
+def parseFilter (j : Json) : Except String Filter := do
+  let tagsJ ← fld j "tags"
+  let tags ← if isNull tagsJ then pure none else do
+    let xs ← (← arr tagsJ).mapM chars
+    pure (some xs)
+  let dels ← (← afld j "dels").mapM chars
+  let sets ← parsePairs parseVal (← fld j "sets")
+  return ⟨tags, dels, sets, ← parseAct (← fld j "act")⟩
+
+/-- `"filters": [[name, [filter, ...]], ...]` of the case -/
+def parseEnv (j : Json) : Except String FilterEnv := do
+  match j.getObjVal? "filters" with
+  | .error _ => return []
+  | .ok fj =>
+    (← arr fj).mapM (fun p => do
+      match (← arr p) with
+      | [k, v] => return ((← chars k), (← (← arr v).mapM parseFilter))
+      | _ => throw "pair expected")
+
 def parseOp (j : Json) : Except String Op := do
   match (← sfld j "op") with
-  | "begin" => return .begin (← parsePairs parseCVal (← fld j "settings"))
+  | "begin" => return .begin (← parsePairs parseCValF (← fld j "settings"))
   | "end" => return .end_
-  | "set" => return .set (← parsePairs parseCVal (← fld j "settings"))
-  | "setitem" => return .setItem (← cfld j "key") (← parseCVal (← fld j "value"))
-  | "update" => return .update (← parsePairs parseCVal (← fld j "settings"))
+  | "set" => return .set (← parsePairs parseCValF (← fld j "settings"))
+  | "setitem" => return .setItem (← cfld j "key") (← parseCValF (← fld j "value"))
+  | "update" => return .update (← parsePairs parseCValF (← fld j "settings"))
   | "tag" => do
     let tag0 ← cfld j "tag"
     let tag := if (← sfld j "via") == "tag" then asciiLower tag0 else tag0
@@ -20,7 +55,7 @@ def parseOp (j : Json) : Except String Op := do
 
 def observedKeys : List String :=
   ["auto_name", "auto_value", "auto_domid", "auto_for", "auto_tabindex", "auto_filter",
-   "tabindex", "domid_format", "ordered_attributes"]
+   "tabindex", "domid_format", "ordered_attributes", "filters"]
 
 def ctxObs (g : Gen) : Json :=
   Json.arr (observedKeys.map (fun k =>
@@ -38,9 +73,10 @@ def parseHowOp (j : Json) : Except String (Option How) := do
 def run (j : Json) : Except String Json := do
   let T := Tables.current
   let R := RenderCfg.current
+  let E ← parseEnv j
   let init ← fld j "init"
   let opsJ ← afld j "ops"
-  match Gen.init T (← cfld init "markup") (← parsePairs parseCVal (← fld init "settings")) with
+  match Gen.init T (← cfld init "markup") (← parsePairs parseCValF (← fld init "settings")) with
   | .error e => return obj [("init_err", Json.str e.name), ("steps", Json.arr #[]), ("open", Json.null)]
   | .ok g0 =>
     let mut g := g0
@@ -49,7 +85,7 @@ def run (j : Json) : Except String Json := do
       let op ← parseOp oj
       match (← parseHowOp oj), op with
       | some how, .tag name bind kwargs =>
-        let (res, g') := g.renderHow T R.attrChain R.voids R.order how name bind kwargs
+        let (res, g') := renderHowF E T R g how name bind kwargs
         g := g'
         match res with
         | .ok (s, c) =>
@@ -57,7 +93,7 @@ def run (j : Json) : Except String Json := do
         | .error e =>
           steps := steps.push (obj [("err", Json.str e.name), ("out", Json.null), ("contents", Json.null), ("ctx", ctxObs g)])
       | _, _ =>
-        let (g', o) := step T R g op
+        let (g', o) := stepF E T R g op
         g := g'
         steps := steps.push (obj [("err", ofErr o.err), ("out", ofOpt ofStr o.out), ("contents", Json.null), ("ctx", ctxObs g)])
     return obj [("init_err", Json.null), ("init_ctx", ctxObs g0), ("steps", Json.arr steps),
